@@ -1611,7 +1611,14 @@ std::string actMapsStr(const EclipseGrid& g) {
     return joinI(g.getACTNUM()) + "|" + std::to_string(g.getNumActive()) + "|" + g2aStr(g) + "|" + a2g;
 }
 
-V depthsOf(const EclipseGrid& g) { V d; for (size_t gi = 0; gi < g.getCartesianSize(); ++gi) d.push_back(g.getCellDepth(gi)); return d; }
+V depthsOf(const EclipseGrid& g, bool byIJK = false) {
+    V d;
+    for (size_t gi = 0; gi < g.getCartesianSize(); ++gi) {
+        if (byIJK) { const auto q = g.getIJK(gi); d.push_back(g.getCellDepth(q[0], q[1], q[2])); }
+        else d.push_back(g.getCellDepth(gi));
+    }
+    return d;
+}
 
 void emitAqu(vh::Sink& sink, vh::Rng& r, int maxn) {
     AquCase c = genAqu(r, maxn);
@@ -1620,6 +1627,7 @@ void emitAqu(vh::Sink& sink, vh::Rng& r, int maxn) {
     const std::string recs = aquRecStr(c, deck);
     sink.emit("gridt.aq " + recs + " " + joinI(twin.getACTNUM()), actMapsStr(g));
     sink.emit("gridt.aqdepth " + recs + " " + hexV(depthsOf(twin)), hexV(depthsOf(g)));
+    sink.emit("gridt.aqdepth " + recs + " " + hexV(depthsOf(twin, true)), hexV(depthsOf(g, true)));      // getCellDepth(i, j, k)
     sink.count("aqu"); sink.count("aqu.records", (long) c.recs.size());
     std::vector<int> cur = g.getACTNUM();
     for (int t = 0; t < 3; ++t) {
@@ -1704,19 +1712,23 @@ void propTops(vh::PropLog& log, std::map<std::string, long>& st, vh::Rng& r, int
     if (threw || gridThrew) { log.fail("tops.throws", ctx + " a TOPS keyword covering the first layer was rejected"); return; }
     if ((int) T.size() != vol) { ok = false; why = "result has " + std::to_string(T.size()) + " entries"; }
     bool retained = false;            // some given value keeps a gap / overlap of >= tol
+    bool overlap = false;             // ... an overlap (the given top lies above the bottom of the layer above)
     for (int t = 0; t < vol && ok; ++t) {
         if (t < area) { if (!sameBits(T[t], IN[t])) { ok = false; why = "first layer changed at " + std::to_string(t); } continue; }
         const double next = T[t - area] + DZ[t - area];
         if (t >= (int) n0) { if (!sameBits(T[t], next)) { ok = false; why = "layer without TOPS not contiguous with the layer above at " + std::to_string(t) + ": " + num(T[t]) + " vs " + num(next); } continue; }
         if (!(std::fabs(T[t] - IN[t]) < tol)) { ok = false; why = "given TOPS not honoured at " + std::to_string(t) + ": " + num(T[t]) + " for " + num(IN[t]); }
         else if (std::fabs(next - IN[t]) < tol) { if (!sameBits(T[t], next)) { ok = false; why = "given TOPS within the tolerance of the layer above but not made contiguous at " + std::to_string(t) + ": " + num(T[t]) + " vs " + num(next); } st["tops.snapped"]++; }
-        else { if (!sameBits(T[t], IN[t])) { ok = false; why = "gap/overlap of " + num(IN[t] - next) + " not retained at " + std::to_string(t) + ": " + num(T[t]) + " for " + num(IN[t]); } retained = true; st["tops.retained"]++; }
+        else { if (!sameBits(T[t], IN[t])) { ok = false; why = "gap/overlap of " + num(IN[t] - next) + " not retained at " + std::to_string(t) + ": " + num(T[t]) + " for " + num(IN[t]); } retained = true; st["tops.retained"]++; if (IN[t] < next) overlap = true; }
     }
     if (!ok) { log.fail("tops.vector", ctx + " " + why); return; }
     log.ok();
     // (B) the grid built from the deck against an independent reference: per column the cell tops
     // are the first-layer value stacked with DZ wherever nothing else was (validly) given
     if (c.inclined) { st["tops.inclined_skipped"]++; return; }
+    // overlapping layers have no consistent box description (the honouring ZCORN would be non-monotone and
+    // be clamped by fixupZCORN): only the vector is checked for them
+    if (overlap) { st["tops.overlap_decks_vector_only"]++; return; }
     V refTop(vol);
     for (int col = 0; col < area; ++col) {
         double z = IN[col];
@@ -1785,6 +1797,7 @@ void propAqu(vh::PropLog& log, std::map<std::string, long>& st, vh::Rng& r, int 
                 const auto it = depth.find(gi);
                 if (it != depth.end()) { if (!close(x.getCellDepth(gi), it->second, 1e-13)) { ok = false; why = tag + ": depth of aquifer cell " + std::to_string(gi) + " = " + num(x.getCellDepth(gi)) + ", AQUNUM says " + num(it->second); break; } }
                 else if (!sameBits(x.getCellDepth(gi), twin.getCellDepth(gi))) { ok = false; why = tag + ": depth of cell " + std::to_string(gi) + " differs from the grid without AQUNUM"; break; }
+                { const auto q = x.getIJK(gi); if (!sameBits(x.getCellDepth(q[0], q[1], q[2]), x.getCellDepth(gi))) { ok = false; why = tag + ": getCellDepth(i,j,k) != getCellDepth(g) at cell " + std::to_string(gi); break; } }
                 if (!sameBits(x.getCellVolume(gi), twin.getCellVolume(gi)) || x.getCellCenter(gi) != twin.getCellCenter(gi)) { ok = false; why = tag + ": volume/centre of cell " + std::to_string(gi) + " differs from the grid without AQUNUM"; break; }
             }
             if (ok && x.getNumActive() != rank) { ok = false; why = tag + ": getNumActive"; }
@@ -1818,8 +1831,32 @@ void propAqu(vh::PropLog& log, std::map<std::string, long>& st, vh::Rng& r, int 
 void propNormal(vh::PropLog& log, std::map<std::string, long>& st, vh::Rng& r, int maxn) {
     // planar-faced grids: the normal is the exact area vector of the bottom face
     CP cp = r.coin() ? genPlanarCP(r, maxn, r.coin(), r.coin(), false) : genHardCP(r, maxn);
+    // wedge cells: one to three of the four vertical edges pinched (bottom corner pulled up to the top corner)
+    long wedges = 0;
+    for (int k = 0; k < cp.nz; ++k) for (int j = 0; j < cp.ny; ++j) for (int i = 0; i < cp.nx; ++i) if (r.coin(1, 5)) {
+        const int keep = r.range(0, 3);
+        for (int c = 0; c < 4; ++c) if (c != keep && r.coin(2, 3)) cp.zcorn[zind(cp.nx, cp.ny, i, j, k, c + 4)] = cp.zcorn[zind(cp.nx, cp.ny, i, j, k, c)];
+        ++wedges;
+    }
+    st["normal.wedge_cells"] += wedges;
     EclipseGrid g(std::array<int, 3>{ cp.nx, cp.ny, cp.nz }, cp.coord, cp.zcorn, nullptr);
     bool ok = true; std::string why;
+    {   // isValidCellGeomtry against its statement: all corner coordinates below 1e20 length units and the
+        // longest of the four vertical edges longer than 1e-4 length units
+        const int unit = r.range(0, 2);
+        const UnitSystem us = unitSys(unit);
+        const double L = us.to_si(UnitSystem::measure::length, 1.0);
+        for (size_t gi = 0; gi < g.getCartesianSize(); ++gi) {
+            A8 X, Y, Z; corners(g, gi, X, Y, Z);
+            double longest = Z[4] - Z[0];
+            for (int c = 1; c < 4; ++c) longest = std::max(longest, Z[c + 4] - Z[c]);
+            const bool want = longest > 1.0e-4 * L;
+            if (std::fabs(longest - 1.0e-4 * L) < 1e-12 * L) continue;
+            if (g.isValidCellGeomtry(gi, us) != want) { log.fail("cell_validity", std::string(unitKw(unit)) + " " + dims3(cp.nx, cp.ny, cp.nz) + " cell=" + std::to_string(gi) + " longest vertical edge " + num(longest) + " m: isValidCellGeomtry = " + (want ? "false" : "true") + " coord=" + hexV(cp.coord) + " zcorn=" + hexV(cp.zcorn)); ok = false; break; }
+            st[want ? "valid.cells.yes" : "valid.cells.no"]++;
+        }
+        if (!ok) return;
+    }
     for (size_t gi = 0; gi < g.getCartesianSize() && ok; ++gi) {
         A8 X, Y, Z; corners(g, gi, X, Y, Z);
         const auto [cc, bc, nn] = g.getCellAndBottomCenterNormal(gi);
@@ -1864,6 +1901,85 @@ void propNormal(vh::PropLog& log, std::map<std::string, long>& st, vh::Rng& r, i
         st["valid"]++;
         if (ok2) log.ok(); else log.fail("cell_validity", std::string(unitKw(unit)) + " dx=" + num(dx) + " dy=" + num(dy) + " dz=" + num(dzU * L) + " " + why2);
     }
+}
+
+
+// ---- P16: pillars leaning in one horizontal direction only ------------------------------------
+// Straight pillars from (x_i, y_j, z0) to (x_i*fx + sx*H, y_j*fy + sy*H, z0 + H), flat layers.  Each
+// of the two directions is independently: vertical (f = 1, s = 0: bottom coordinate *exactly* the top
+// coordinate), sheared (s != 0), fanning (f != 1), or both.  Every cell face is planar (the face
+// i = const is the plane x = x_i (1 + (fx-1) t) + sx H t, t = (z - z0)/H), the horizontal section at
+// depth z is the rectangle wx(z) x wy(z), so volume, corners, centre and depth are known in closed
+// form from the construction.  The grid is also saved and the corners re-read through
+// EclIO::EGrid::getCellCorners, which has its own pillar interpolation.
+void propLean(vh::PropLog& log, std::map<std::string, long>& st, vh::Rng& r, int maxn, const std::string& tmp, long& fileNo) {
+    const int nx = r.range(1, maxn), ny = r.range(1, maxn), nz = r.range(1, maxn);
+    const int mx = r.range(0, 3), my = r.range(0, 3);            // 0 vertical, 1 sheared, 2 fanning, 3 both
+    auto pick = [&](int m, double& f, double& sh) {
+        f = (m == 2 || m == 3) ? (r.coin() ? 1.0 + rlen(r, 0.05, 0.6) : 1.0 - rlen(r, 0.05, 0.5)) : 1.0;
+        sh = (m == 1 || m == 3) ? (r.coin() ? 1 : -1) * rlen(r, 0.02, 0.6) : 0.0;
+    };
+    double fx, sx, fy, sy; pick(mx, fx, sx); pick(my, fy, sy);
+    const double z0 = r.coin() ? 0.0 : rlen(r, 500, 3000), H = rlen(r, 20, 400);
+    const bool fromZero = r.coin();                               // first pillar row/column at 0 (stays put when fanning)
+    V xs(nx + 1), ys(ny + 1), zs(nz + 1);
+    xs[0] = fromZero ? 0.0 : rlen(r, 10, 500); ys[0] = fromZero ? 0.0 : rlen(r, 10, 500); zs[0] = z0;
+    for (int i = 0; i < nx; ++i) xs[i + 1] = xs[i] + rlen(r, 5, 150);
+    for (int j = 0; j < ny; ++j) ys[j + 1] = ys[j] + rlen(r, 5, 150);
+    for (int k = 0; k < nz; ++k) zs[k + 1] = k + 1 == nz ? z0 + H : zs[k] + (z0 + H - zs[k]) * rlen(r, 0.2, 0.8) ;
+    V coord, zcorn(size_t(8) * nx * ny * nz);
+    for (int j = 0; j <= ny; ++j) for (int i = 0; i <= nx; ++i)
+        coord.insert(coord.end(), { xs[i], ys[j], z0, xs[i] * fx + sx * H, ys[j] * fy + sy * H, z0 + H });
+    for (int k = 0; k < nz; ++k) for (int j = 0; j < ny; ++j) for (int i = 0; i < nx; ++i) for (int c = 0; c < 8; ++c)
+        zcorn[zind(nx, ny, i, j, k, c)] = zs[k + (c >> 2)];
+    const std::string kind = std::string("x:") + "vsfb"[mx] + " y:" + "vsfb"[my];
+    st["lean"]++; st["lean." + kind]++;
+    auto px = [&](double x, double z) { const double t = (z - z0) / H; return x + (x * (fx - 1.0) + sx * H) * t; };
+    auto py = [&](double y, double z) { const double t = (z - z0) / H; return y + (y * (fy - 1.0) + sy * H) * t; };
+    bool ok = true; std::string why;
+    try {
+        const EclipseGrid g(std::array<int, 3>{ nx, ny, nz }, coord, zcorn, nullptr);
+        const std::string file = tmp + "/LEAN" + std::to_string(fileNo++) + ".EGRID";
+        g.save(file, false, {}, unitSys(0));
+        EclIO::EGrid eg(file);
+        const double scale = std::fabs(xs[nx] * std::max(fx, 1.0)) + std::fabs(ys[ny] * std::max(fy, 1.0)) + (std::fabs(sx) + std::fabs(sy)) * H + z0 + H;
+        for (int k = 0; k < nz && ok; ++k) for (int j = 0; j < ny && ok; ++j) for (int i = 0; i < nx && ok; ++i) {
+            const std::string cell = " cell (" + dims3(i, j, k) + ")";
+            const double za = zs[k], zb = zs[k + 1], ta = (za - z0) / H, tb = (zb - z0) / H;
+            // widths w(t) = w0 (1 + (f-1) t): volume = H * w0x w0y * int_ta^tb (1 + a t)(1 + b t) dt
+            const double a = fx - 1.0, b = fy - 1.0, w0x = xs[i + 1] - xs[i], w0y = ys[j + 1] - ys[j];
+            const double vol = H * w0x * w0y * ((tb - ta) + (a + b) * (tb * tb - ta * ta) / 2.0 + a * b * (tb * tb * tb - ta * ta * ta) / 3.0);
+            const double v = g.getCellVolume(i, j, k);
+            if (!close(v, vol, 1e-9)) { ok = false; why = "volume " + num(v) + ", exact " + num(vol) + cell; break; }
+            A8 X, Y, Z, EX, EY, EZ;
+            corners(g, g.getGlobalIndex(i, j, k), X, Y, Z);
+            eg.getCellCorners(std::array<int, 3>{ i, j, k }, EX, EY, EZ);
+            double cx = 0, cy = 0;
+            for (int c = 0; c < 8 && ok; ++c) {
+                const double z = (c >> 2) ? zb : za, x = px(xs[i + (c & 1)], z), y = py(ys[j + ((c >> 1) & 1)], z);
+                cx += x / 8; cy += y / 8;
+                if (!close(X[c], x, 0, 1e-12 * scale) || !close(Y[c], y, 0, 1e-12 * scale) || !close(Z[c], z, 0, 1e-12 * scale)) { ok = false; why = "corner " + std::to_string(c) + " = (" + num(X[c]) + ", " + num(Y[c]) + ", " + num(Z[c]) + "), construction (" + num(x) + ", " + num(y) + ", " + num(z) + ")" + cell; }
+                else if (!close(X[c], EX[c], 0, 4e-7 * scale) || !close(Y[c], EY[c], 0, 4e-7 * scale) || !close(Z[c], EZ[c], 0, 4e-7 * scale)) { ok = false; why = "corner " + std::to_string(c) + ": grid (" + num(X[c]) + ", " + num(Y[c]) + ", " + num(Z[c]) + "), EclIO::EGrid of the saved file (" + num(EX[c]) + ", " + num(EY[c]) + ", " + num(EZ[c]) + ")" + cell; }
+                const auto q = g.getCornerPos(i, j, k, c);
+                if (ok && (!sameBits(q[0], X[c]) || !sameBits(q[1], Y[c]) || !sameBits(q[2], Z[c]))) { ok = false; why = "getCornerPos != getCellCorners" + cell; }
+            }
+            if (!ok) break;
+            const auto ctr = g.getCellCenter(i, j, k);
+            if (!close(ctr[0], cx, 0, 1e-12 * scale) || !close(ctr[1], cy, 0, 1e-12 * scale) || !close(ctr[2], (za + zb) / 2, 0, 1e-12 * scale)) { ok = false; why = "centre (" + num(ctr[0]) + ", " + num(ctr[1]) + ", " + num(ctr[2]) + "), construction (" + num(cx) + ", " + num(cy) + ", " + num((za + zb) / 2) + ")" + cell; break; }
+            if (!close(g.getCellDepth(i, j, k), (za + zb) / 2, 0, 1e-12 * scale)) { ok = false; why = "depth" + cell; break; }
+            if (!close(g.getCellThickness(i, j, k), zb - za, 1e-9)) { ok = false; why = "thickness" + cell; break; }
+            st["lean.cells"]++;
+        }
+        // the reloaded grid has the same cells (within single precision of the file)
+        if (ok) {
+            const EclipseGrid h(file);
+            for (size_t gi = 0; gi < g.getCartesianSize() && ok; ++gi) {
+                const double rel = 4e-6 * scale / std::min({ g.getCellDims(gi)[0], g.getCellDims(gi)[1], g.getCellDims(gi)[2] });
+                if (!close(g.getCellVolume(gi), h.getCellVolume(gi), rel)) { ok = false; why = "volume after save/load " + num(g.getCellVolume(gi)) + " vs " + num(h.getCellVolume(gi)) + " cell " + std::to_string(gi); }
+            }
+        }
+    } catch (const std::exception& e) { ok = false; why = std::string("exception ") + typeid(e).name(); }
+    if (ok) log.ok(); else log.fail("lean_pillars", kind + " " + dims3(nx, ny, nz) + " " + why + " coord=" + hexV(coord) + " zcorn=" + hexV(zcorn));
 }
 
 int main(int argc, char** argv) {
@@ -2336,6 +2452,7 @@ int main(int argc, char** argv) {
                 propAqu(log, st, rng, thorough ? 6 : 5, tmp, fileNo);
                 propNormal(log, st, rng, thorough ? 6 : 5);
             }
+            for (int t = 0; t < 2 * n3; ++t) propLean(log, st, rng, thorough ? 5 : 4, tmp, fileNo);
         }
         // P5: thread-count independence, observed: re-exec with OMP_NUM_THREADS = 1, 4, 16 and compare bits
         if (indexBroken) {
